@@ -7,6 +7,7 @@ package vsync
 
 import (
 	"fmt"
+	"os"
 	"sync"
 	"sync/atomic"
 
@@ -28,7 +29,7 @@ func NewCond(l Locker) *Cond { return sync.NewCond(l) }
 // shim adds no synchronisation of its own beyond the real mutex.
 var Tracking atomic.Bool
 
-func init() { Tracking.Store(true) }
+func init() { Tracking.Store(os.Getenv("VERIF_RACE") != "1") }
 
 type Mutex struct {
 	mu    sync.Mutex
